@@ -298,10 +298,10 @@ Proof.
   { intros fd l. induction l as [|x l IH]; [reflexivity|].
     cbn [filter]. unfold declared_by. rewrite existsb_find_arg.
     destruct (find_arg (fst x) (f_args fd)); cbn [negb map]; [exact IH|]. f_equal. exact IH. }
-  unfold sort_args, undeclared_args. destruct args as [|a0 args0].
-  { destruct (lookup t0 S) as [[k|fs ifaces|fs|ms|fs]|]; try reflexivity; destruct (find_field name fs); reflexivity. }
-  destruct (lookup t0 S) as [[k|fs ifaces|fs|ms|fs]|]; try reflexivity;
-    (destruct (find_field name fs) as [fd|]; [|reflexivity]); cbn [snd]; apply Hl.
+  unfold sort_args, undeclared_args, meta_arg_errs. destruct args as [|a0 args0].
+  { destruct (lookup t0 S) as [[k|fs ifaces|fs|ms|fs]|]; try (destruct (find_field name fs)); destruct (Nat.eqb name TYPENAME); reflexivity. }
+  destruct (lookup t0 S) as [[k|fs ifaces|fs|ms|fs]|]; try (destruct (Nat.eqb name TYPENAME); reflexivity);
+    (destruct (find_field name fs) as [fd|]; [|destruct (Nat.eqb name TYPENAME); reflexivity]); cbn [snd]; apply Hl.
 Qed.
 
 (* Field.Args after sortArgs under a ConType that declares every supplied argument still holds
